@@ -68,6 +68,11 @@ let () =
            for _ = 1 to nev do
              match next () with
              | "W" -> st := save_state fops c !st
+             | "P" ->
+               (* write_pmf at temperature T: one value per bin, in the order of the array *)
+               let temp = nf () in
+               let idx = all_indices (List.map (fun bd -> int_of_z bd.b_nx) (!st).st_geom) in
+               outs := ("P " ^ String.concat " " (List.map (fun ix -> hex (pmf_value fops c !st temp (List.map z_of_int ix))) idx)) :: !outs
              | "R" -> st := restart_state fops c !st None
              | "L" -> st := reload_state fops c !st
              | "B" ->
